@@ -58,6 +58,7 @@ type vfSimCfg struct {
 	Outage          [2]uint32   // [from, to): every datagram emitted in this interval (ms since start) is dropped
 	Outages         [][2]uint32 // when set, the outage is an environment choice among these
 	Trace           bool
+	SegmentLikePayload bool     // the written bytes carry well-formed segment headers of the same conversation (C01: payloads are never parsed)
 	CleanPath       bool        // C18: assert that every data sn is transmitted exactly once
 	BatchReader     bool        // the applications run once per instant, after ALL datagrams that arrive at that instant were input (a receive loop that reads a batch before the reader goroutine gets to run)
 	FateFrom        int         // fates are enumerated for datagrams [FateFrom, FateFrom+K): exploration from a warmed-up connection
@@ -215,8 +216,15 @@ func vfNewSim(cfg vfSimCfg) *vfSim {
 			en.k.stream = 1
 		}
 		off := 0
-		for _, n := range cfg.Writes[i] {
-			en.toWrite = append(en.toWrite, vfPayload(i, n, off))
+		for wi, n := range cfg.Writes[i] {
+			pl := vfPayload(i, n, off)
+			if cfg.SegmentLikePayload && n >= 24+8 {
+				// the application's bytes happen to look like a protocol segment of this very conversation: a well-formed PUSH
+				// header with a sequence number the reader is still waiting for (payloads are data, never protocol)
+				hdr := wire.EncodeSegment(wire.Seg{Conv: 0x11223344, Cmd: wire.CmdPush, Wnd: 32, Sn: cfg.Sn0 + uint32((wi+1)%6), Una: cfg.Sn0, Data: pl[24:]}, -1)
+				copy(pl, hdr[:24])
+			}
+			en.toWrite = append(en.toWrite, pl)
 			off += n
 		}
 		s.e[i] = en
